@@ -286,6 +286,10 @@ def run(tier, seed, model_ok, spec_ok, replay=None):
         doc = g.document(3, 4)
         base = rg.rule(doc, cast_p=0.4)
         normalise_path(limit_parts(base.path))
+        for part in base.path.parts:           # as in the main pass: arguments under a data-type class are types (D12 is C09's)
+            for ca in (getattr(part, "kw", None) or {}).values():
+                if ca is not None and not ca.is_lit:
+                    types_under_dtype(ca.cond)
         cond = nested_tree(g, pg, doc, classes=("Value",))
         psx = [sg.part_spec(p) for p in base.path.parts]
         cs = sg.cond_spec(cond)
